@@ -67,6 +67,9 @@ func TestVerifC03(t *testing.T) {
 	var jobs []job
 	for _, root := range roots {
 		for _, ap := range vAssetPaths(root) {
+			if vTimeOffsetAsset(ap) {
+				continue // see DESIGN: assets whose first segment does not start at media time 0 are probed by C02 only
+			}
 			a, err := vAsset(root, ap)
 			if err != nil || !a.LoopExact || a.Ref.Kind != "video" {
 				continue
